@@ -1,6 +1,5 @@
 import Bmc.Proofs.C12
 import Bmc.Proofs.GenDec.CipherSuiteRecords
-import Bmc.Proofs.GenOrch.TranslatedOk
 import Bmc.Proofs.GenOrch.DetermineCipherSuite
 import Bmc.Proofs.GenOrch.RetrieveSupportedCipherSuites
 #print axioms Bmc.Proofs.C12.choose_first_supported
@@ -14,8 +13,6 @@ import Bmc.Proofs.GenOrch.RetrieveSupportedCipherSuites
 #print axioms Bmc.Proofs.C12.discovery_failure_is_error
 #print axioms Bmc.Proofs.GenDec.parseCipherSuiteRecordData_gen_eq
 #print axioms Bmc.Proofs.GenDec.parseCipherSuiteRecordData_fuel
-#print axioms Bmc.Proofs.GenOrch.translated_ok
-#print axioms Bmc.Proofs.GenOrch.gaveUp_none
 #print axioms Bmc.Proofs.GenOrch.defaultCipherSuites_gen_eq
 #print axioms Bmc.Proofs.GenOrch.determineCipherSuite_gen_eq
 #print axioms Bmc.Proofs.GenOrch.determineCipherSuite_fuel_any
